@@ -175,6 +175,27 @@ def collision_jobs():
                      pb2_files=[d1.SerializeToString(), d2.SerializeToString()],
                      probe_args=dict(package=names.import_package(P), proto_package=P, cells=cells), _position='collision',
                      _words=['common'], _cells=cells))
+    # two *target* files with the same base name, one in the API package and one in a sub-package; no single message refers to both
+    sp = P + '.sub'
+    root_common = file('acme/kw/v1/common.proto', P, messages=[message('Shared', [field('root_value', 1, 'string')])])
+    sub_common = file('acme/kw/v1/sub/common.proto', sp, messages=[message('Shared', [field('sub_value', 2, 'string')])])
+    msgs = [message('Alpha', [field('name', 1, 'string'), field('item', 2, Q('Shared'))]),
+            message('Beta', [field('name', 1, 'string'), field('item', 2, f'.{sp}.Shared')])]
+    main = file('acme/kw/v1/main_service.proto', P, messages=msgs, services=[service('Kw', [
+        method('EchoAlpha', Q('Alpha'), Q('Alpha'), http=('post', '/v1/alpha', '*')),
+        method('EchoBeta', Q('Beta'), Q('Beta'), http=('post', '/v1/beta', '*'))])])
+    for f in (root_common, sub_common):
+        f.dependency.extend(std)
+    main.dependency.extend(std + [root_common.name, sub_common.name])
+    req = request([root_common, sub_common, main], 'transport=grpc+rest,autogen-snippets=false')
+    desc.gate(req)
+    cells = [dict(id='collision|same-basename-root-type', position='collision', word='common', rpc='EchoAlpha', py='echo_alpha', req=Q('Alpha'),
+                  resp=Q('Alpha'), dict_request=True),
+             dict(id='collision|same-basename-subpackage-type', position='collision', word='common', rpc='EchoBeta', py='echo_beta', req=Q('Beta'),
+                  resp=Q('Beta'), dict_request=True)]
+    jobs.append(dict(id='collision-subpackage', req=req.SerializeToString(), probe='mc.probes.reserved',
+                     probe_args=dict(package=names.import_package(P), proto_package=P, cells=cells), _position='collision',
+                     _words=['common'], _cells=cells))
     return jobs
 
 
